@@ -7,7 +7,8 @@
    obs  = list of (5 code) ERROR sent to the requester | (1 filename mode options handler_index)
           transfer started | (4) exception logged | (99 raw) anything else that was sent |
           (7) the liveness probe that followed was not answered.
-   Output (model_obs failed_on_model failed_on_impl). *)
+   Output (model_obs failed_on_model failed_on_impl () covered): covered = 1 iff the case is one for which
+   C09_port_covered_cases says that the checker accepts the model. *)
 From Coq Require Import String.
 From Coq Require Import List NArith ZArith Bool.
 From VF Require Import Base.Sx Tftp.Codec Tftp.Run Tftp.RequestPort.
@@ -73,7 +74,8 @@ Definition port_entry (x : sx) : sx :=
           let d' := firstn MAX_REQUEST_PACKET_SIZE d in
           let m := match run_loop_f catch_all hs [(f, sendable, d)] with [m] => m | _ => [] end in
           L [L (map sx_action m); L (map sxS (port_holds_f f sendable hs d' m));
-             L (map sxS (port_holds_f f sendable hs d' io))]
+             L (map sxS (port_holds_f f sendable hs d' io)); L [];
+             I (if port_validb f sendable hs d' then 1 else 0)%Z]
       | None, _, _, _ => sxS "bad-case"
       | _, None, _, _ => sxS "bad-case"
       | _, _, None, _ => sxS "bad-case"
